@@ -61,9 +61,13 @@ type Proc struct {
 	Replies []Reply `json:"replies"`
 }
 
+// Act is one scripted misbehaviour of the Call-th call. For the destination acts
+// N is an index or a count: "extra" sends N+1 surplus acks, "wrongpos"/"dup"/
+// "swap" act on the N-th ack of the reply, "short" loses the last N+1 acks.
 type Act struct {
 	Call int    `json:"call"`
 	Act  string `json:"act"`
+	N    int    `json:"n,omitempty"`
 }
 
 type Dest struct {
@@ -228,24 +232,30 @@ func cKind(k Kind) string {
 	panic("ill-formed kind " + k.K)
 }
 
-func cAct(a string) string {
-	switch a {
+func cAct(a Act) string {
+	if a.N < 0 {
+		panic("ill-formed act parameter")
+	}
+	arg := func(c string) string { return "(" + c + " " + hx.Nat(a.N) + ")" }
+	switch a.Act {
 	case "empty":
 		return "AEmpty"
 	case "err":
 		return "AErr"
 	case "extra":
-		return "AExtra"
+		return arg("AExtra")
 	case "wrongpos":
-		return "AWrongPos"
+		return arg("AWrongPos")
 	case "dup":
-		return "ADup"
+		return arg("ADup")
 	case "swap":
-		return "ASwap"
+		return arg("ASwap")
+	case "short":
+		return arg("AShort")
 	case "eof":
 		return "AEof"
 	}
-	panic("ill-formed act " + a)
+	panic("ill-formed act " + a.Act)
 }
 
 func cActs(as []Act) string {
@@ -254,7 +264,7 @@ func cActs(as []Act) string {
 		if a.Call < 0 {
 			panic("ill-formed act call")
 		}
-		items[i] = hx.Pair(hx.Nat(a.Call), cAct(a.Act))
+		items[i] = hx.Pair(hx.Nat(a.Call), cAct(a))
 	}
 	return hx.List(items)
 }
